@@ -24,7 +24,12 @@ def gen_workload(rng, nops):
                         "sec": rng.randint(1, 2_000_000_000), "nano": rng.choice([0, 1, 999_999_999])})
             appends.append(i)
         elif r < 0.8:
-            ops.append({"kind": "save", "sub": rng.choice(["s1", "s2"]), "ack_ix": rng.choice(appends)})
+            prev = [o for o in ops if o["kind"] == "save"]
+            if prev and rng.random() < 0.4:
+                # the caller repeats its last SaveOffset (what a retry after an error looks like)
+                ops.append(dict(prev[-1]))
+            else:
+                ops.append({"kind": "save", "sub": rng.choice(["s1", "s2"]), "ack_ix": rng.choice(appends)})
         elif r < 0.9:
             ops.append({"kind": "close-reopen"})
         else:
